@@ -95,8 +95,12 @@ class CaseGen:
                 # the name is the lambda's own parameter here: this is a use of the parameter
                 parts.append(f"{p}.u{m}({a}.z)" if "." not in a else f"{p}.u{m}({a})")
                 continue
-            form = r.randint(0, 6) if "." not in a else form
-            if form == 4:
+            form = r.randint(0, 7) if "." not in a else form
+            if form == 7:
+                # a lambda written INSIDE a default value whose own parameter carries the capture's name: it binds the name inside
+                # itself only - in the body of the lambda that has the default the name is the captured variable
+                parts.append(f"{p}.jets.Select(lambda j, *, cal{m}=(lambda {a}: {a}.w): j.h{m}(cal{m}(j.pt), {a}))")
+            elif form == 4:
                 # the capture as DEFAULT of a nested lambda's parameter of the same name (a default is evaluated outside the lambda)
                 parts.append(f"{p}.jets.Select(lambda j, {a}={a}: j.h{m}({a}, j.pt))")
             elif form == 5:
@@ -596,6 +600,22 @@ def q_where(ds, fn): return ds.Where(fn)
 def q_select(ds, fn): return ds.Select(fn)
 def q_good(ds): return ds.Where(good)
 def q_lambda_again(ds): return ds.Select(lambda e: (e.pt > PT_CUT, sq(e.pt), Cfg.THR))
+# a variable of the enclosing function that has no value any more when the lambda is passed again (deleted, or assigned on a branch
+# not taken) while a module global carries the same name: the global is another variable
+cutx = 99.0
+def emptied(ds, how):
+    if how in ("deleted", "never"):
+        cutx = 5.0
+    def q(): return ds.Where(lambda e: e.pt > cutx)
+    first = None
+    if how == "deleted":
+        first = q()
+        del cutx
+    try:
+        second = q()
+    except ValueError:
+        second = "refused"
+    return first, second
 '''
 
 
@@ -634,6 +654,20 @@ def def_history(ctx, rounds=8):
                 got = frozenset([((), f"<compile/eval failed: {type(e).__name__}: {e}>")])
             if got != expected:
                 ctx.violation("def-history:values-of-another-moment", f"{what}, round {rd} (PT_CUT={m.PT_CUT!r}, LABEL={m.LABEL!r}, THR={m.Cfg.THR!r}, cut={cut!r}, k={k!r}): python gives {probe.describe(expected, 2)}, recorded {astx.unparse(lam)[:200]} gives {probe.describe(got, 2)}", {"def_history": True})
+    for how in ("deleted", "branch-not-taken"):
+        ctx.case(f"def-history:empty-cell:{how}", True)
+        try:
+            first, second = m.emptied(ds, how)
+        except Exception as e:
+            ctx.violation(f"def-history:exc:{type(e).__name__}", f"closure variable without a value ({how}): {type(e).__name__}: {str(e)[:200]}", {"def_history": True})
+            continue
+        if second != "refused":
+            lam = second.query_ast.args[1]
+            free = astx.free_names(lam) - {"e"}
+            got = probe.behaviour(probe.compile_lambda(lam, {}))
+            if not free and not any("raises" in r_ for _, r_ in got):
+                ctx.violation("def-history:value-of-another-scope", f"closure variable cutx has no value ({how}; python raises NameError when the lambda runs), a module global of the same name holds 99.0: recorded {astx.unparse(lam)[:200]}", {"def_history": True})
+        ctx.count("def-history:empty-closure-cells")
     modgen.unload(m)
 
 
